@@ -166,8 +166,8 @@ DETAIL = False  # diagnosis: compare value by value instead of through the diges
 
 
 def to_coq(c, o):
-    if "steps" not in o:
-        return None
+    if "steps" not in o or o.get("panic"):
+        return None  # the sender panicked: a violation by the harness verdict, nothing to replay in the model
     steps = ";".join(step_term(s) for s in o["steps"])
     if DETAIL:
         return "CDet %d %s [%s] [%s]" % (c["bps"], b(c["dis"]), steps, ";".join(obs_term(s) for s in o["steps"] if s["op"] != "rtt"))
